@@ -1,9 +1,10 @@
 """C19 - numbers survive text: printing and parsing round-trip exactly; number lexing never absorbs a `.`
 that starts a method call or a range.
 
-Theorems (coq/props/C19.v over Num/NumText/NumLex/NumRound/NumSrcModel): print/parse round trip for ALL valid
-doubles, shape of printed text, a literal / to_num text denotes A NEAREST double (round_ratio_nearest, over Z),
-the four lexing theorems for every digit string and continuation, printed text re-lexes as one Number token.
+Theorems (coq/props/C19.v over Num/NumText/NumLex/NumRound/NumInterval/NumShortest/NumDigits/NumSrcModel): print/parse
+round trip for ALL valid doubles, shape of printed text, a literal / to_num text denotes A NEAREST double (full statement
+incl. the early exits), rounding interval iff, monotonicity, integral <-> printed without '.', printed digits are the
+shortest (<= 17), the four lexing theorems for every digit string and continuation, printed text re-lexes as one Number.
 Tie: (t) translator: structure of value.rs Display arm (-0 branch), scanner.rs number() (peek_next look-ahead),
 core.rs string_to_num / compiler.rs number (parse the text unchanged) -> gen/NumSrc.v, required true by props;
 (a) printing  impl == M (print_f64) and impl == S (to_num / literal of the printed text gives back the bits);
@@ -30,8 +31,8 @@ TRUSTED = [
 ]
 ASSUMPTIONS = [
     "NaN is one class: sign and payload of a NaN are not represented in the model and not compared",
-    "the digit search of print_f64 is proved to round-trip, not proved to be the shortest; agreement with the implementation's text is tested",
-    "nearest_double_correct is proved for -1100 <= e10 <= 310 (no early exit); the two early exits are argued in a comment",
+    "print_f64 is proved to round-trip and to give the SHORTEST digit string (<= 17 digits, fallback never taken); WHICH of several equally short candidates is printed (closest to x, ties to the larger) is only tested against the implementation",
+    "integrality is stated with the arithmetic predicate integral_fin (m*2^e is an integer); its agreement with Num.is_integral (SpecFloat ftrunc/feqb) is checked on samples only",
 ]
 
 SIGN = 1 << 63
@@ -294,6 +295,13 @@ def check_print(ctx, bits, tag):
             ctx.corr_broken.append("impl != M (print_f64) for bits %d: impl %r model %r" % (b, t[:60], m[:60]))
         if fin and sig_digits(t) >= 2:
             nontriv.add(b)
+    # model-internal: Num.is_integral == integral_finb (the predicate of the integrality theorems) == exact arithmetic
+    for b, v in zip(bits, coq_lists("run_intg_w", [str(b) for b in bits], 200, "C19intg" + tag)):
+        if v is None or v == "T-":
+            continue
+        exact = mag_value(b & ~SIGN & MASK).denominator == 1
+        if v[0] != "T" or (v[1] == "I") != exact:
+            ctx.broken.append("integrality predicates disagree for bits %d: is_integral/integral_finb %s, exact %s" % (b, v, exact))
     # the printed text as a source literal (finite values; a leading '-' is the unary minus applied to the literal)
     lit = [(b, t) for b, t in zip(bits, texts) if t is not None and not is_nan_bits(b) and (b & ~SIGN & MASK) < INF]
     sn2 = run_snips(binary, [(b, "r = %s; print(%s == x);" % (t, t)) for b, t in lit])
